@@ -179,6 +179,34 @@ let sd_layout (c : case) : SadumpSpec.sd_layout =
 let sd_image (c : case) : coq_N list option list =
   Stdlib.List.map (function Some p -> Some p.content | None -> None) (snd (read_image c.img))
 
+(* ---- LKCD: stream file = u32 pgsz, u32 count, then per record
+        u64 pfn, u32 flags, u32 paylen, payload, content(pgsz) ---- *)
+type lrec = { lpfn : coq_N; lflags : int; lpayload : coq_N list; lcontent : coq_N list }
+let read_stream (p : string) : int * lrec list =
+  let b = read_file p in
+  let u32 o = Char.code (Bytes.get b o) lor (Char.code (Bytes.get b (o+1)) lsl 8)
+              lor (Char.code (Bytes.get b (o+2)) lsl 16) lor (Char.code (Bytes.get b (o+3)) lsl 24) in
+  let u64 o = n_of_hex (String.concat "" (Stdlib.List.init 8 (fun i ->
+                Printf.sprintf "%02x" (Char.code (Bytes.get b (o + 7 - i)))))) in
+  let pgsz = u32 0 and cnt = u32 4 in
+  let pos = ref 8 in
+  let out = ref [] in
+  for _ = 1 to cnt do
+    let o = !pos in
+    let pl = u32 (o + 12) in
+    out := { lpfn = u64 o; lflags = u32 (o + 8); lpayload = list_of_sub b (o + 16) pl;
+             lcontent = list_of_sub b (o + 16 + pl) pgsz } :: !out;
+    pos := o + 16 + pl + pgsz
+  done;
+  (pgsz, Stdlib.List.rev !out)
+
+let lk_layout (c : case) : LkcdSpec.lk_layout =
+  { LkcdSpec.ll_be = lkb c "be"; ll_version = lkn c "ver"; ll_mclx = lkn c "mclx"; ll_hdr64 = lkb c "h64";
+    ll_page_size = lkn c "pgsz"; ll_compression = lkn c "comp"; ll_uts = lkbytes c "uts";
+    ll_data_offset = lkn c "dataoff"; ll_memsize = lkn c "memsize" }
+
+let lk_fuel = nat_of_int 100000
+
 let shift_of (pgsz : coq_N) : coq_N =
   let rec go k = if (1 lsl k) >= int_of_n pgsz then k else go (k + 1) in n_of_int (go 0)
 
@@ -201,6 +229,36 @@ let model_case (line : string) : string =
                          let ((s, data), st') = ElfModel.elf_read rd pgsz z (a = 'V') !st addr len in
                          st := st'; (s, data) end) } in
            run_reqs r c.reqs)
+  | "lkcd" ->
+      let (_, recs) = read_stream c.img in
+      let tab = Hashtbl.create 64 in
+      Stdlib.List.iter (fun r -> Hashtbl.replace tab (string_of_list r.lpayload) r.lcontent) recs;
+      let gunzip payload = Hashtbl.find_opt tab (string_of_list payload) in
+      (match LkcdModel.lk_open rd (nat_of_int (Array.length files)) with
+       | Codec.Err st -> "OPEN" ^ status_str st
+       | Codec.Ok st0 ->
+           let st = ref st0 in
+           let z = ref false in
+           ignore z;
+           String.concat " " (Stdlib.List.map (fun t ->
+             if t = "G" then begin
+               let (r, st') = LkcdModel.lk_scan_max_pfn rd lk_fuel !st in
+               st := st';
+               match r with
+               | Codec.Ok m -> Printf.sprintf "G:lkcd:%d:%s:%s:%s" (if st0.LkcdModel.lk_be then 0 else 1)
+                                 (lk c "ptr") (hex_of_n st0.lk_page_size) (hex_of_n m)
+               | Codec.Err e -> Printf.sprintf "G:lkcd:%d:%s:%s:!%s" (if st0.LkcdModel.lk_be then 0 else 1)
+                                 (lk c "ptr") (hex_of_n st0.lk_page_size) (status_str e)
+             end
+             else if t = "Z0" || t = "Z1" then "Z"
+             else if t.[0] = 'R' then begin
+               match split_on ':' (String.sub t 1 (String.length t - 1)) with
+               | [a; addr; len] when a = "M" ->
+                   let ((s, data), st') = LkcdModel.lk_read rd gunzip lk_fuel !st (n_of_hex addr) (n_of_hex len) in
+                   st := st';
+                   Printf.sprintf "R%s:%x:%x" (status_str s) (Stdlib.List.length data) (fnv1a data)
+               | _ -> "?"
+             end else "?") c.reqs))
   | "sadump" ->
       (match SadumpModel.sd_open rd (nat_of_int (Array.length files)) with
        | Codec.Err st -> "OPEN" ^ status_str st
@@ -231,6 +289,12 @@ let enc_case (line : string) : string =
   | "elf" ->
       let out = ElfSpec.encode_elf (elf_layout c) (read_segs c.img) in
       Printf.sprintf "ok %d" (write_file (Stdlib.List.hd c.paths) out)
+  | "lkcd" ->
+      let (_, recs) = read_stream c.img in
+      let stream = Stdlib.List.map (fun r ->
+        { LkcdSpec.lp_pfn = r.lpfn; lp_flags = n_of_int r.lflags; lp_payload = r.lpayload }) recs in
+      let out = LkcdSpec.encode_lkcd (lk_layout c) stream in
+      Printf.sprintf "ok %d" (write_file (Stdlib.List.hd c.paths) out)
   | "sadump" ->
       let outs = SadumpSpec.encode_sadump (sd_layout c) (sd_image c) in
       (* file i holds disk order[i] *)
@@ -260,6 +324,18 @@ let spec_case (line : string) : string =
                 read = (fun z a addr len ->
                   if a <> 'M' && a <> 'V' then (n_of_int 99, [])
                   else let ((st, data), ()) = Codec.read_range (getp z (a = 'V')) pg () addr len in (st, data)) } in
+      run_reqs r c.reqs
+  | "lkcd" ->
+      let l = lk_layout c in
+      let (_, recs) = read_stream c.img in
+      let img = Stdlib.List.map (fun r -> (r.lpfn, r.lcontent)) recs in
+      let pg = l.LkcdSpec.ll_page_size in
+      let getp _z () addr = (LkcdSpec.spec_lkcd_page img (fst (BinNat.N.div_eucl addr pg)), ()) in
+      let r = { geom = Printf.sprintf "G:lkcd:%d:%s:%s:%s" (if l.ll_be then 0 else 1) (lk c "ptr")
+                         (hex_of_n pg) (hex_of_n (LkcdSpec.spec_lkcd_max_pfn img));
+                read = (fun z a addr len ->
+                  if a <> 'M' then (n_of_int 99, [])
+                  else let ((st, data), ()) = Codec.read_range (getp z) pg () addr len in (st, data)) } in
       run_reqs r c.reqs
   | "sadump" ->
       let l = sd_layout c and simg = sd_image c in
